@@ -472,6 +472,18 @@ def oracle(ctx, case, obs, exp):
             elif norm_attr(got[k]) != norm_attr(v):
                 ctx.fail(Failure("attr-changed", f"{ns}: attribute {k} is {got[k]!r}, the row prescribes {v!r}", case,
                                  extra={"attr": k, "row": sr}))
+        # data type / preload attributes against the harness's own copy of the documented type table
+        overridden = {a for a, _ in sr["logic"]}
+        for k, v in OWN_TYPES.get(sr.get("tkey", ""), {}).items():
+            if k not in overridden and got.get(k) != v:
+                ctx.fail(Failure("type-table", f"{ns}: a {sr['tkey']!r} question must have {k}={v!r}, has {got.get(k)!r}", case,
+                                 extra={"attr": k, "row": sr}))
+        # yes/no normalisation against the harness's own copy of the documented spellings
+        for a, val in sr["logic"]:
+            if a in OWN_CONVERTIBLE and isinstance(val, str) and val in OWN_YESNO and a in got and not (sr["trigger"] and a == "calculate"):
+                if got[a] != OWN_YESNO[val]:
+                    ctx.fail(Failure("yesno-normalisation", f"{ns}: {a}={val!r} must become {OWN_YESNO[val]!r}, is {got[a]!r}", case,
+                                     extra={"attr": a, "row": sr}))
         for k in got:
             if k not in w:
                 ctx.fail(Failure("attr-foreign", f"{ns}: attribute {k}={got[k]!r} comes from no cell of this row nor from the type table",
@@ -479,6 +491,34 @@ def oracle(ctx, case, obs, exp):
     for ns, (sr, w) in want.items():
         if ns not in seen:
             ctx.fail(Failure("bind-missing", f"no bind for {ns}; the row prescribes {w}", case, extra={"row": sr}))
+
+
+# the harness's own copy of what the XLSForm reference prescribes for the documented question types
+# (independent of /repo's question_type_dictionary; type-table key → bind attributes)
+def _pre(kind, param, typ="string"):
+    return {"jr:preload": kind, "jr:preloadParams": param, "type": typ}
+
+
+OWN_TYPES = {
+    "integer": {"type": "int"}, "int": {"type": "int"}, "decimal": {"type": "decimal"}, "text": {"type": "string"},
+    "string": {"type": "string"}, "date": {"type": "date"}, "time": {"type": "time"}, "dateTime": {"type": "dateTime"},
+    "datetime": {"type": "dateTime"}, "geopoint": {"type": "geopoint"}, "geotrace": {"type": "geotrace"},
+    "geoshape": {"type": "geoshape"}, "photo": {"type": "binary"}, "image": {"type": "binary"}, "audio": {"type": "binary"},
+    "video": {"type": "binary"}, "file": {"type": "binary"}, "barcode": {"type": "barcode"},
+    "note": {"type": "string", "readonly": "true()"}, "calculate": {"type": "string"}, "hidden": {"type": "string"},
+    "acknowledge": {"type": "string"}, "select one": {"type": "string"}, "select all that apply": {"type": "string"},
+    "rank": {"type": "odk:rank"}, "range": {"type": "int"},
+    "start": _pre("timestamp", "start", "dateTime"), "end": _pre("timestamp", "end", "dateTime"),
+    "today": _pre("date", "today", "date"), "deviceid": _pre("property", "deviceid"),
+    "username": _pre("property", "username"), "phonenumber": _pre("property", "phonenumber"),
+    "email": _pre("property", "email"), "simserial": _pre("property", "simserial"),
+    "subscriberid": _pre("property", "subscriberid"), "start-geopoint": {"type": "geopoint"},
+    "background-audio": {"type": "binary"},
+}
+
+OWN_CONVERTIBLE = {"readonly", "required", "relevant", "constraint", "calculate"}
+OWN_YESNO = {**{k: "true()" for k in ("yes", "Yes", "YES", "true", "True", "TRUE")},
+             **{k: "false()" for k in ("no", "No", "NO", "false", "False", "FALSE")}}
 
 
 def norm_attr(v: str) -> str:
